@@ -19,7 +19,8 @@ NODES_OK = ['old(self).graph.nodes().contains(old(self).initial_state)',
 MINIMIZE_POST = 'exists|m: Map<State, State>| m.dom() == old(self).graph.nodes() && final(self).initial_state == m[old(self).initial_state] && #[trigger] finals_exact(m, old(self).final_state_indices@, final(self).final_state_indices@)'
 
 def _inv(tag):
-    return ['*self == *old(self)', ('minimize.blocks_stay_a_partition@%s' % tag, ['C16', 'C02', 'C07'], 'partition(p@, self.graph.nodes())')]
+    return ['*self == *old(self)', ('minimize.blocks_stay_a_partition@%s' % tag, ['C16', 'C02', 'C07'], 'partition(p@, self.graph.nodes())'),
+            ('minimize.blocks_never_mix_accepting_and_other_states@%s' % tag, ['C16', 'C02', 'C01'], 'pure(p@, self.final_state_indices@)')]
 
 def build(repo, spec_dir, canary=False):
     b = Builder('minimize', repo, canary)
@@ -41,8 +42,18 @@ def build(repo, spec_dir, canary=False):
     b.emit("}\nimpl<'a> Dfa<'a> {")
     Dm = "^impl<'a> Dfa<'a> \\{"
     b.assumed_fn('dfa.rs', 'recreate_graph', within=Dm, requires=RECREATE_REQ, ensures=[RECREATE_POST], why='verified in unit dfa against exactly this contract')
-    b.assumed_fn('dfa.rs', 'get_initial_partition', within=Dm, ensures=['r@.len() == 2', 'partition(r@, self.graph.nodes())'],
-                 why='node_indices().partition(closure) (petgraph + Iterator::partition): two disjoint sets that together hold every state')
+    gip, _, _ = X.fn(b.src('dfa.rs'), 'get_initial_partition', within=Dm)
+    ce, _, _ = X.closure_expr(gip, '.partition(|&state| ')
+    NEG = 'true' if ce.strip().startswith('!') else 'false'
+    b.assumed_fn('dfa.rs', 'get_initial_partition', within=Dm, ensures=['r@.len() == 2', 'partition(r@, self.graph.nodes())',
+                                                                         'forall|s: State| #[trigger] r@[0]@.contains(s) ==> first_block_test(s, self.final_state_indices@, %s)' % NEG,
+                                                                         'forall|s: State| #[trigger] r@[1]@.contains(s) ==> !first_block_test(s, self.final_state_indices@, %s)' % NEG],
+                 why='node_indices().partition(closure) (petgraph + Iterator::partition): two disjoint sets that together hold every state; the first holds the states the closure answers true for, the second the others -- the closure itself is verified against `first_block_test` (initial_partition.separates_accepting_states)')
+    # the closure of get_initial_partition: the test that decides the block
+    b.emit('}')
+    b.slice_fn('initial_block_test', "pub fn initial_block_test<'a>(self_: &Dfa<'a>, state: State) -> (r: bool)", '    ' + ce.strip().replace('self.', 'self_.'), 'dfa.rs::get_initial_partition closure |&state|', props=['C07'],
+               clauses=[Clause('initial_partition.separates_accepting_states', 'r == first_block_test(state, self_.final_state_indices@, %s)' % NEG, ['C16', 'C02', 'C01'])])
+    b.emit("impl<'a> Dfa<'a> {")
     # get_parent_states: every returned state has an edge into the splitter block
     PAR = 'forall|s: State| x@.contains(s) ==> exists|t: State| a@.contains(t) && #[trigger] self.graph.edges().contains_key((s, t))'
     # exactness (C01, C05, C16): Hopcroft splits by the states that have a transition on THIS symbol into the splitter; a symbol is a label (text and both counts)
@@ -80,9 +91,12 @@ def build(repo, spec_dir, canary=False):
                          2: ['!break is_replacement_needed ==> it2.index@ == 0'] + _inv('loop2') + ['p@.len() >= 2', 'start_idx < p@.len()', 'it2.iter.end == p@.len()', 'it2.snapshot.start < it2.snapshot.end',
                              ('minimize.pending_split_is_intersection_and_difference@loop2', ['C16', 'C02', 'C07'], '!ensures ' + GOOD)],
                          3: _inv('loop3') + ['p@.len() >= 2']},
-                  blocks=[('if is_replacement_needed {', 'before', '                    let ghost vx_p0 = p@;'),
+                  blocks=[('let mut w = ', 'before', '        proof { lemma_initial_partition_is_pure(p@, self.final_state_indices@, %s); }' % NEG, ('minimize.initial_partition_separates_accepting_states', ['C16', 'C02', 'C01'])),
+                          ('if is_replacement_needed {', 'before', '                    let ghost vx_p0 = p@;'),
+                          ('if is_replacement_needed {', 'after_block', '                    proof { if is_replacement_needed { lemma_split_keeps_pure(vx_p0, p@, start_idx as int, x@, self.final_state_indices@); } }', ('minimize.split_never_mixes_accepting_and_other_states', ['C16', 'C02', 'C01'])),
                           ('if is_replacement_needed {', 'after_block', '                    proof { if is_replacement_needed { lemma_split_keeps_partition(vx_p0, p@, start_idx as int, x@, self.graph.nodes()); } }', ('minimize.split_keeps_partition', ['C16', 'C02', 'C07'])),
-                          ('self.recreate_graph(vx_blocks);', 'before', '        proof { lemma_filtered_partition(p@, vx_blocks@, self.graph.nodes()); }', ('minimize.recreate_precondition', ['C16', 'C02', 'C07']))])
+                          ('self.recreate_graph(vx_blocks);', 'before', '        proof { lemma_filtered_partition(p@, vx_blocks@, self.graph.nodes()); }', ('minimize.recreate_precondition', ['C16', 'C02', 'C07'])),
+                          ('self.recreate_graph(vx_blocks);', 'before', '        proof { lemma_filtered_pure(p@, vx_blocks@, self.final_state_indices@); assert(pure_refs(vx_blocks@, self.final_state_indices@)); }', ('minimize.every_class_is_all_accepting_or_all_not', ['C16', 'C02', 'C01']))])
     b.emit('}\n} // verus!\nimpl Clone for Grapheme { fn clone(&self) -> Self { unimplemented!() } }\nimpl PartialEq for Grapheme { fn eq(&self, o: &Self) -> bool { unimplemented!() } }\nimpl Eq for Grapheme {}\nimpl PartialOrd for Grapheme { fn partial_cmp(&self, o: &Self) -> Option<std::cmp::Ordering> { unimplemented!() } }\nimpl Ord for Grapheme { fn cmp(&self, o: &Self) -> std::cmp::Ordering { unimplemented!() } }\nfn main() {}')
     b.trusted += ['petgraph stand-in (neighbors_directed, find_edge, edge_weight) with ghost nodes/edges; NodeIndex obeys the hash-key model',
                   'std HashSet / Vec iterator idioms through the stand-ins of spec/minimize.rs (R27): intersection, difference, count, cloned, drain(0..1), position, filter(non-empty), contains',
